@@ -13,7 +13,7 @@
    its clip lies inside the buffer and inside the handed rectangle r). *)
 From Coq Require Import ZArith List Bool.
 From Tickit Require Import RectDefs WinRectSet WinDefs WinSpec WinHist
-  WinExposeProofs WinFlushProofs WinScreenInv WinC01Extra.
+  WinExposeProofs WinLogDisjoint WinFlushProofs WinScreenInv WinPreserve WinHistory WinC01Extra.
 Import ListNotations.
 Local Open Scope Z_scope.
 
@@ -57,6 +57,72 @@ Theorem C01_flush_no_queue : forall app progs st tm st' tm' lg,
   ScreenInv app st' tm'.
 Proof. exact flush_establishes. Qed.
 Print Assumptions C01_flush_no_queue.
+
+(* ... and with any queue of restacks (each applied restack exposes the sibling's rect) *)
+Theorem C01_flush : forall app progs st tm st' tm' lg,
+  ScreenInv app st tm -> ids_unique (r_tree st) ->
+  (forall id, progs id = [DPaint]) ->
+  win_flush no_defects (prog_handler app progs) st tm = (st', tm', lg) ->
+  r_fault st' = false ->
+  r_damage st' = [] /\
+  (forall q, cell_inb (root_selfrect st') q = true -> t_grid tm' q = shows app (r_tree st') q) /\
+  ScreenInv app st' tm' /\ ids_unique (r_tree st').
+Proof. exact flush_establishes_any_queue. Qed.
+Print Assumptions C01_flush.
+
+(* Every operation of the history alphabet other than flush, the three scrolls and the
+   terminal resize preserves the screen invariant: new (first / lowest / root-parent / hidden),
+   close, show, hide, queued restacks, set_geometry / reposition / resize followed by the
+   exposes of old and new area (the property's proviso), expose, take_focus, cursor and
+   control setters -- because the only cells whose composition changes lie in the rectangle
+   the operation exposes.  [op_side]: new ids are fresh; show / hide / geometry not on the
+   root; geometry ops come with their exposes; exposing the whole root needs a non-empty
+   root.  [r_fault] = a rectangle-set loop ran out of fuel (then nothing is claimed). *)
+Theorem C01_preserved : forall cfg progs o m,
+  ScreenInv (m_app m) (m_root m) (m_term m) -> ids_unique (r_tree (m_root m)) ->
+  op_side (m_root m) o -> r_fault (m_root (step cfg progs o m)) = false ->
+  ScreenInv (m_app (step cfg progs o m)) (m_root (step cfg progs o m)) (m_term (step cfg progs o m)) /\
+  ids_unique (r_tree (m_root (step cfg progs o m))).
+Proof. exact step_preserves. Qed.
+Print Assumptions C01_preserved.
+
+(* the state right after tickit_window_new_root satisfies the invariant *)
+Theorem C01_init : forall nl nc orc, 0 < nl -> 0 < nc ->
+  r_fault (m_root (m_init nl nc orc)) = false -> MInv (m_init nl nc orc).
+Proof. exact init_inv. Qed.
+Print Assumptions C01_init.
+
+(* FULL STATEMENT (C01_history): for every finite history of window-tree operations
+   (interleaved with flushes at arbitrary points) on every tree, and every scroll oracle,
+   after each flush every terminal cell shows the composition.
+   PROVED (C01_history_partial / C01_history_flushed_partial): for every history over the
+   alphabet WITHOUT the three scroll operations and the terminal resize ([run_ok]: each
+   step is a flush or an operation meeting op_side, and no fuel fault), starting from any
+   state with the invariant (e.g. C01_init), with handlers that repaint what they are asked:
+   the invariant holds throughout, and after a history that ends with a flush the damage is
+   empty and every screen cell shows the composition.  No bound on the length of the
+   history, the number of windows or the coordinates.
+   MISSING: preservation of ScreenInv by OScroll / OScrollRect / OScrollKids / OTermResize.
+   The scroll case needs (i) the case analysis of _scrollrectset per stored rectangle
+   (accepted: the terminal content and the application content shift alike, pending damage
+   is shifted, the vacated strips are exposed; refused or too large: everything exposed) and
+   (ii) that the visible region contains NO cell of a child / higher sibling, i.e. the
+   exactness of rectset subtract (WinRectSetProofs.rs_subtract_covered_partial proves only
+   that nothing outside the holes is lost), which rests on the sortedness / disjointness
+   invariant of property C05.  These operations are covered by the correspondence check
+   (model = C after every flush, compose oracle) only. *)
+Theorem C01_history_partial : forall progs,
+  (forall id, progs id = [DPaint]) ->
+  forall ops m, MInv m -> run_ok progs ops m -> MInv (run no_defects progs ops m).
+Proof. exact history_preserves. Qed.
+Print Assumptions C01_history_partial.
+
+Theorem C01_history_flushed_partial : forall progs,
+  (forall id, progs id = [DPaint]) ->
+  forall ops m, MInv m -> run_ok progs (ops ++ [OFlush]) m ->
+    all_shown (run no_defects progs (ops ++ [OFlush]) m).
+Proof. exact history_flushed. Qed.
+Print Assumptions C01_history_flushed_partial.
 
 (* [shows] is [compose] on the screen of a visible root *)
 Theorem C01_shows_is_compose : forall app tree q,
